@@ -913,7 +913,20 @@ def child_main():
     job = json.load(sys.stdin)
     texts = job["texts"]
     out = {"hashseed_env": os.environ.get("PYTHONHASHSEED"), "str_hash": hash("c17-determinism-probe"), "set_order": "".join(list({"p", "q", "r", "s", "t", "u", "v", "w"}))}
-    if job["mode"] == "fresh":
+    if job["mode"] == "single":
+        # the pool's task function, under this child's hash seed (it builds its own parser per call)
+        drive._quiet_import()
+        import rzilcompiler.Parser as P
+        from rzilcompiler.Configuration import Conf, InputFile
+
+        with open(Conf.get_path(InputFile.GRAMMAR, "Hexagon")) as f:
+            grammar = "".join(f.readlines())
+        fwd = []
+        for t in texts:
+            pi = P.parse_single(P.InsnParsingBundle(grammar, "c17", [t]))["c17"]
+            fwd.append("ERR:" + pi.exception.name if pi.exception is not None else hashlib.sha256(N.tree_dump(pi.asts[0]).encode()).hexdigest()[:24])
+        out["fwd"] = fwd
+    elif job["mode"] == "fresh":
         out["fwd"] = [_digest_with(fresh_parser(), t) for t in texts]
     else:
         p = fresh_parser()
@@ -1006,6 +1019,11 @@ def determinism(ctx, gen_texts, corpus_texts, cached_digest):
     """-> (number of digest comparisons, coverage dict); reports violations through ctx"""
     quick = ctx.tier == "quick"
     all_texts = list(gen_texts) + list(corpus_texts)
+    # bundled behaviours in which a block is followed by ';' (an ambiguity of the grammar whose resolution must not depend
+    # on the iteration order of the parser's item sets): a slice of them joins every configuration
+    amb_corpus = sorted(set(p for parts in drive.load_corpus().values() for p in parts if re.search(r"\}\s*;", p)))
+    have = set(all_texts)
+    all_texts += [t for t in amb_corpus[:: (5 if quick else 1)] if t not in have]
     nsh = core.NPROC
     jobs = []
     # one parser object per child: forwards under every hash seed; under seed 0 the same object then parses
@@ -1019,6 +1037,14 @@ def determinism(ctx, gen_texts, corpus_texts, cached_digest):
     fresh_slice = sorted(all_texts)[:: (16 if quick else 6)]
     for i, sh in enumerate(shards(fresh_slice, nsh, ctx.seed)):
         jobs.append((("fresh", 3, i), 3, "fresh", sh, []))
+    # Parser.parse_single (the task function of the pool) under every hash seed, on a slice
+    # (it builds a parser per call, so the slice is small: texts in which a block is followed by ';' - the ambiguity whose
+    # resolution depends on the iteration order of the parser's item sets - and a thin slice of everything else)
+    amb = [t for t in sorted(all_texts) if re.search(r"\}\s*;", t)]
+    single_slice = sorted(set(amb[:: (6 if quick else 1)] + sorted(all_texts)[2 :: (60 if quick else 6)]))
+    for hs in HASH_SEEDS:
+        for i, sh in enumerate(shards(single_slice, nsh, ctx.seed)):
+            jobs.append((("single", hs, i), hs, "single", sh, []))
     # longest jobs first
     jobs.sort(key=lambda j: -(sum(30 + len(t) for t in j[3]) + sum(30 + len(t) for t in j[4])))
     ctx.log("determinism: %d child interpreters (%d texts x %d hash seeds, %d fresh-parser texts)" % (len(jobs), len(all_texts), len(HASH_SEEDS), len(fresh_slice)))
@@ -1030,7 +1056,7 @@ def determinism(ctx, gen_texts, corpus_texts, cached_digest):
         if r["hashseed_env"] != str(hs):
             raise core.HarnessError("child %r ran with PYTHONHASHSEED=%r" % (key, r["hashseed_env"]))
         hashes.setdefault(hs, set()).add((r["str_hash"], r["set_order"]))
-        name = {"seed": "hashseed=%d/one-parser-forwards" % hs, "fresh": "hashseed=%d/fresh-parser-per-text" % hs}[key[0]]
+        name = {"seed": "hashseed=%d/one-parser-forwards" % hs, "fresh": "hashseed=%d/fresh-parser-per-text" % hs, "single": "hashseed=%d/Parser.parse_single" % hs}[key[0]]
         d = by_cfg.setdefault(name, {})
         for t, g in zip(texts, r["fwd"]):
             d[t] = g
